@@ -20,6 +20,8 @@ down, coming up and dropping connections, over arbitrary ids, streams, destinati
 * `others_keep_flowing`      frame: an op on id i leaves rule, client, liveness and deliveries of j ≠ i alone
 * `listing_exact`            rule listing = added − deleted, per id; no duplicates
 * `reserved_id_unreachable`  "deleteAll" is never a key of rules / clients
+* `id_taken_verbatim`        every id string ≠ "deleteAll" (blank/slash/case variants of it too) is stored under
+                             exactly itself, all other ids untouched; `delete_taken_verbatim` likewise for delete
 * `no_orphans`               the ghost observation printed by the driver is always empty
 -/
 
@@ -707,6 +709,46 @@ theorem reserved_id_unreachable (cfg : KV (List String)) (ops : List Op) :
   · rw [mem_keys_iff_has, has, h1]; simp
   · rw [mem_keys_iff_has, has, h2]; simp
 
+/-- **C16 `id_taken_verbatim`**: ids are compared and stored as given, for EVERY id string: after any history, an
+    add of any id other than exactly the string `"deleteAll"` -- `"/deleteAll"`, `" deleteAll"`, `"DeleteAll"`, the
+    empty id, ... included -- is stored and listed under exactly that id; the entry (rule and client) of every other
+    id string `j ≠ i` -- ids differing from `i` only by blanks, a slash or case included -- is what it was; and
+    still nothing is held under the reserved id.  (No canonicalisation on either side of the reserved-id guard.) -/
+theorem id_taken_verbatim (cfg : KV (List String)) (ops : List Op) (i : String) (st : Stream) (d : Dest)
+    (hi : i ≠ reserved) :
+    let s := run ops (start cfg)
+    let s' := step s (.add i st d)
+    lookup s'.rules i = some ⟨st, d⟩ ∧
+    (lookup s'.clients i).map (fun c => (c.dest, c.stream)) = some (d, st) ∧
+    (∀ j, j ≠ i → lookup s'.rules j = lookup s.rules j ∧ lookup s'.clients j = lookup s.clients j) ∧
+    lookup s'.rules reserved = none ∧ lookup s'.clients reserved = none := by
+  intro s s'
+  have hun : ∀ j, j ≠ i → lookup s'.rules j = lookup s.rules j ∧ lookup s'.clients j = lookup s.clients j := by
+    intro j hj
+    have h := step_untouched s (.add i st d) j (by simpa [touches] using fun h : i = j => hj h.symm)
+    exact ⟨h.2, h.1⟩
+  have hres := reserved_id_unreachable cfg ops
+  have hr := hun reserved (fun h => hi h.symm)
+  refine ⟨?_, ?_, hun, hr.1.trans hres.1, hr.2.trans hres.2.1⟩
+  · simp only [s', step_add s i st d hi]; simp
+  · simp only [s', step_add s i st d hi]; simp
+
+/-- and a delete of any id other than exactly `"deleteAll"` removes that id's entry only -/
+theorem delete_taken_verbatim (cfg : KV (List String)) (ops : List Op) (i : String) (hi : i ≠ reserved) :
+    let s := run ops (start cfg)
+    let s' := step s (.delete i)
+    lookup s'.rules i = none ∧ lookup s'.clients i = none ∧
+    (∀ j, j ≠ i → lookup s'.rules j = lookup s.rules j ∧ lookup s'.clients j = lookup s.clients j) := by
+  intro s s'
+  refine ⟨?_, ?_, ?_⟩
+  · simp only [s', step_delete s i hi]; simp
+  · simp only [s', step_delete s i hi]; simp
+  · intro j hj
+    have h := step_untouched s (.delete i) j (by
+      simp only [touches, Bool.or_eq_false_iff, beq_eq_false_iff_ne, ne_eq]
+      exact ⟨fun h => hj h.symm, hi⟩)
+    exact ⟨h.2, h.1⟩
+
 /-! ### non-vacuity: one concrete history exercising every clause -/
 
 def demoCfg : KV (List String) := [("stream/a", ["fa"]), ("stream/b", ["fa", "fb"])]
@@ -734,6 +776,18 @@ example :
     received (step s (.add "r2" "plain" "d2")) (.bcast "plain" none) = ["d3", "d3"] ∧   -- d2 is down
     deliveries (step s (.add "r2" "plain" "d5")) (.inject "d3") = [5, 5] ∧              -- from both sockets to d3
     orphans s = [] := by
+  decide
+
+/-- near-reserved ids and whitespace twins are ordinary, pairwise distinct keys; only the exact string is refused;
+    deleting `" r1"` leaves `"r1"`; deleting `"/deleteAll"` is not a delete-all -/
+example :
+    let s := run [.add "/deleteAll" "plain" "d1", .add " deleteAll" "plain" "d2", .add "deleteAll" "plain" "d3",
+                  .add "DeleteAll" "plain" "d4", .add "r1" "plain" "d5", .add " r1" "plain" "d6",
+                  .add "" "plain" "d7", .add " " "plain" "d8", .add "deleteAll\n" "plain" "d9",
+                  .delete " r1", .delete "/deleteAll"] (start demoCfg)
+    (s.rules.map (·.1)) = ["deleteAll\n", " ", "", "r1", "DeleteAll", " deleteAll"] ∧
+    gens s.clients = [7, 6, 5, 3, 2, 1] ∧ s.cancelled = [0, 4] ∧
+    lookup s.rules reserved = none ∧ orphans s = [] := by
   decide
 
 example : (run (demoOps ++ [.delete "deleteAll"]) (start demoCfg)).cancelled = [4, 3, 2, 1, 0] ∧
